@@ -11,6 +11,8 @@ from .common import VERIF, REPO, run_seed, jdump, scratch_root
 
 
 def main(argv):
+    from . import runner
+    runner._worker_init()
     cmd = argv[0]
     if cmd == "selftest-env":
         return env()
